@@ -143,7 +143,7 @@ class ResolveUnknown:
 		parent = declare.parent
 		if isinstance(parent, defs.AnnoAssign):
 			# 期待値: var: Callable[[A, B]: ...] = lambda a, b: ...
-			type_raw = reflections.type_of(parent).impl(refs.Object).actualize('alt')
+			type_raw = reflections.type_of(parent.var_type).impl(refs.Object).actualize('alt')
 			return var_raw.declare(var_raw.node.as_a(defs.Declable), type_raw.attrs[index])
 		elif isinstance(parent, defs.Argument):
 			# 期待値: func(lambda a, b: ...)
